@@ -28,7 +28,8 @@ ASSUMPTIONS = [
     "targets live in in-memory zarr stores wrapped by the tracing store; reading back uses the unwrapped store and plain zarr",
 ]
 
-ALL_CLASSES = ("fresh", "fresh", "group", "existing-same", "existing-diff", "existing-diff", "region-aligned", "region-aligned", "sharded", "region-misaligned")
+ALL_CLASSES = ("fresh", "fresh", "group", "existing-same", "existing-diff", "existing-diff", "region-aligned", "region-aligned", "region-aligned", "sharded", "region-misaligned", "existing-smaller")
+REJECT = ("region-misaligned", "existing-smaller")
 
 
 def case_strategy(opts=None, max_ops=4):
@@ -75,7 +76,7 @@ def check_case(case) -> Outcome:
     spec = c01.make_spec("schedule")
     ctx = S.SinkCtx()
     fails = []
-    must_reject = any(s["cls"] == "region-misaligned" for s in sinks)
+    must_reject = any(s["cls"] in REJECT for s in sinks)
     with warnings.catch_warnings():
         warnings.simplefilter("ignore")
         try:
@@ -104,13 +105,13 @@ def check_case(case) -> Outcome:
         except Exception as e:
             rejected = e
     # the misaligned class may have become aligned after the shift (then it is an ordinary region store)
-    must_reject = any(t.sink["cls"] == "region-misaligned" for t in ctx.targets)
+    must_reject = any(t.sink["cls"] in REJECT for t in ctx.targets)
     if rejected is not None:
         labels.add(f"raised:{type(rejected).__name__}")
         entered = getattr(ex, "entered", None)
         if must_reject and isinstance(rejected, ValueError):
             # nothing may have been written by the rejected call; earlier eager calls are judged normally
-            bad_t = [t for t in ctx.targets if t.sink["cls"] == "region-misaligned"]
+            bad_t = [t for t in ctx.targets if t.sink["cls"] in REJECT]
             for t in bad_t:
                 if any(r[1] in ("set", "delete", "delete_dir") for r in t.store.state.log):
                     fails.append(Failure("rejected-but-written", f"target {t.path}: writes recorded although the call was rejected"))
@@ -145,7 +146,8 @@ def check_case(case) -> Outcome:
         labels.add("sources-fail-too(C17)")
         return Outcome(labels=tuple(labels))
     if must_reject:
-        fails.append(Failure("misaligned-region-accepted", "a region that does not align with the target's chunks was not rejected"))
+        which = sorted({t.sink["cls"] for t in ctx.targets if t.sink["cls"] in REJECT})
+        fails.append(Failure("unsafe-store-accepted:" + "+".join(which), "a region that does not align with the target's chunks / a source that does not fit into the target was not rejected"))
     # read back every target
     for t in ctx.targets:
         if t.expected is None:
